@@ -19,6 +19,8 @@ def strip_shape(v):
         mp = {}
         for a in atoms_of(v):
             if isinstance(a, App) and a.fn in ("reshape", "fresh") and a.args:
+                if a.fn == "fresh" and a.kwd("dtype") not in (None, Const("float")):
+                    continue        # a cast to another (integer / narrower / data-dependent) dtype changes values: kept visible
                 mp[a] = a.args[0]
             elif isinstance(a, App) and a.fn == "getitem" and a.args[1] == Const(None):
                 mp[a] = a.args[0]
